@@ -1965,14 +1965,35 @@ class Process(Instance):
 
         proc_name = self._scope.lookup_name(self)
 
+        if self._has_empty_sensitivity_list():
+            # an empty sensitivity list is not allowed,
+            # the process is executed once and ends with a wait statement
+            process_header = f"{proc_name}: process"
+        else:
+            process_header = f"{proc_name}: process({sensitivity_list})"
+
         return TextBlock(
             content=[
-                f"{proc_name}: process({sensitivity_list})",
+                process_header,
                 IndentBlock(self._write_declarations()),
             ],
         )
 
+    def _has_empty_sensitivity_list(self) -> bool:
+        return (
+            isinstance(self._sensitivity, _SensitivityList)
+            and len(self._sensitivity.signals) == 0
+        )
+
     def _write_body(self) -> TextBlock:
+        if self._has_empty_sensitivity_list():
+            return TextBlock(
+                [
+                    "begin",
+                    IndentBlock([self._code.write(self._scope, True), "wait;"]),
+                ]
+            )
+
         return TextBlock(["begin", IndentBlock(self._code.write(self._scope, True))])
 
     def _write_end(self) -> str:
